@@ -90,6 +90,87 @@ fn const_conds(cfg: &Cfg) -> String {
     format!("(cc {})", out.join(" "))
 }
 
+/// The reports of the consumers of partial facts (CS0013 unnecessary signal assignment, CS0010 non-strict binary
+/// conversion), run on the graph exactly as the pass budgets left it: `(adv (<code> <start> <end>) ...)`, the location
+/// being the primary label's (the statement for CS0013).
+fn advice(cfg: &Cfg) -> String {
+    let mut out = Vec::new();
+    for pass in get_analysis_passes() {
+        let mut ctx = NoContext;
+        if let Some(reports) = verif_harness::guarded(|| pass(&mut ctx, cfg)) {
+            for r in reports {
+                if r.id() == "CS0013" || r.id() == "CS0010" {
+                    match r.primary().first() {
+                        Some(l) => out.push(format!("({} {} {})", r.id(), l.range.start, l.range.end)),
+                        None => out.push(format!("({} - -)", r.id())),
+                    }
+                }
+            }
+        }
+    }
+    out.sort();
+    format!("(adv {})", out.join(" "))
+}
+
+/// `file:<hex>`: a whole source text (the definition under test first, then the templates / functions it uses). The
+/// REAL `remove_syntactic_sugar` runs on the definition maps as the program library builds them (anonymous components,
+/// tuples, `_`); the FIRST definition then goes through into_cfg / into_ssa like a single definition.
+fn lift_file(src: &str, curve: &Curve) -> Result<Cfg, String> {
+    use parser::verif::{parse_source, remove_syntactic_sugar};
+    use program_structure::file_definition::FileLibrary;
+    use program_structure::function_data::FunctionData;
+    use program_structure::template_data::TemplateData;
+    let mut file_library = FileLibrary::new();
+    let file_id = file_library.add_file("memory.circom".to_string(), src.to_string(), true);
+    let ast = match verif_harness::guarded(|| parse_source(src, file_id)) {
+        None => return Err("(panic parse)".to_string()),
+        Some(Err(_)) => return Err("(parseerr)".to_string()),
+        Some(Ok(ast)) => ast,
+    };
+    let mut templates: HashMap<String, TemplateData> = HashMap::new();
+    let mut functions: HashMap<String, FunctionData> = HashMap::new();
+    let mut elem_id = 0;
+    let mut first: Option<(bool, String)> = None;
+    for definition in ast.definitions {
+        match definition {
+            Definition::Function { name, args, arg_location, body, .. } => {
+                first.get_or_insert((false, name.clone()));
+                functions.insert(name.clone(), FunctionData::new(name, file_id, body, args.len(), args, arg_location, &mut elem_id));
+            }
+            Definition::Template { name, args, arg_location, body, parallel, is_custom_gate, .. } => {
+                first.get_or_insert((true, name.clone()));
+                templates.insert(
+                    name.clone(),
+                    TemplateData::new(name, file_id, body, args.len(), args, arg_location, &mut elem_id, parallel, is_custom_gate),
+                );
+            }
+        }
+    }
+    let mut reports = ReportCollection::new();
+    let (templates, functions) =
+        match verif_harness::guarded(|| remove_syntactic_sugar(&templates, &functions, &file_library, &mut reports)) {
+            None => return Err("(panic sugar)".to_string()),
+            Some(r) => r,
+        };
+    let mut reports = ReportCollection::new();
+    let cfg = match first {
+        Some((true, name)) => match templates.get(&name) {
+            Some(t) => verif_harness::guarded(|| t.into_cfg(curve, &mut reports)),
+            None => return Err("(sugarerr)".to_string()),
+        },
+        Some((false, name)) => match functions.get(&name) {
+            Some(f) => verif_harness::guarded(|| f.into_cfg(curve, &mut reports)),
+            None => return Err("(sugarerr)".to_string()),
+        },
+        None => return Err("(parseerr)".to_string()),
+    };
+    match cfg {
+        None => Err("(panic cfg)".to_string()),
+        Some(Err(_)) => Err("(cfgerr)".to_string()),
+        Some(Ok(c)) => Ok(c),
+    }
+}
+
 fn run(line: &str) -> String {
     let t: Vec<&str> = line.split_whitespace().collect();
     if t.len() != 4 {
@@ -98,25 +179,32 @@ fn run(line: &str) -> String {
     let curve = Curve::from_str(t[0]).unwrap();
     set_value_pass_budget(budget(t[1]));
     set_degree_pass_budget(budget(t[2]));
-    let src = irdump::unhex(t[3]);
-    let mut def = match verif_harness::guarded(|| parse_definition(&src)) {
-        None => return "(panic parse)".to_string(),
-        Some(None) => return "(parseerr)".to_string(),
-        Some(Some(d)) => d,
-    };
-    // what the program library does for the definitions of a parsed file: a file id on every node
-    match &mut def {
-        Definition::Template { meta, body, .. } | Definition::Function { meta, body, .. } => {
-            meta.set_file_id(0);
-            let mut id = 0;
-            body.fill(0, &mut id);
+    let cfg = if let Some(hex) = t[3].strip_prefix("file:") {
+        match lift_file(&irdump::unhex(hex), &curve) {
+            Ok(c) => c,
+            Err(e) => return e,
         }
-    }
-    let mut reports = ReportCollection::new();
-    let cfg = match verif_harness::guarded(|| def.into_cfg(&curve, &mut reports)) {
-        None => return "(panic cfg)".to_string(),
-        Some(Err(_)) => return "(cfgerr)".to_string(),
-        Some(Ok(c)) => c,
+    } else {
+        let src = irdump::unhex(t[3]);
+        let mut def = match verif_harness::guarded(|| parse_definition(&src)) {
+            None => return "(panic parse)".to_string(),
+            Some(None) => return "(parseerr)".to_string(),
+            Some(Some(d)) => d,
+        };
+        // what the program library does for the definitions of a parsed file: a file id on every node
+        match &mut def {
+            Definition::Template { meta, body, .. } | Definition::Function { meta, body, .. } => {
+                meta.set_file_id(0);
+                let mut id = 0;
+                body.fill(0, &mut id);
+            }
+        }
+        let mut reports = ReportCollection::new();
+        match verif_harness::guarded(|| def.into_cfg(&curve, &mut reports)) {
+            None => return "(panic cfg)".to_string(),
+            Some(Err(_)) => return "(cfgerr)".to_string(),
+            Some(Ok(c)) => c,
+        }
     };
     let pre = irdump::cfg(&cfg);
     let dominfo = irdump::dominfo(&cfg);
@@ -125,7 +213,7 @@ fn run(line: &str) -> String {
         Some(Err(_)) => format!("(ssaerr {} {})", pre, dominfo),
         Some(Ok(c)) => match verif_harness::guarded(|| const_conds(&c)) {
             None => format!("(panic constcond {})", pre),
-            Some(cc) => format!("(ok {} {} {} {} {})", pre, irdump::cfg(&c), irdump::idoms(&c), dominfo, cc),
+            Some(cc) => format!("(ok {} {} {} {} {} {})", pre, irdump::cfg(&c), irdump::idoms(&c), dominfo, cc, advice(&c)),
         },
     }
 }
